@@ -234,6 +234,76 @@ def fuse_scenario(bias_kind):
   return scenario
 
 
+def special_scenario(kind):
+  """Branches of the export loop selected by the layer's class: recurrent layers (the trailing state quantizer is not a
+  weight quantizer), folded conv+batchnorm layers (folded weights are quantized for the dictionary, the layer keeps its
+  own weights), average pooling (multiplier entries)."""
+  def scenario(ip):
+    s = Scen()
+    utils = ip.get_module("qkeras.utils")
+    F = [z3.Function("Q%d" % i, z3.RealSort(), z3.RealSort()) for i in range(4)]
+    mkq = lambda Fi: Obj(ExtClass("quantized_bits"), {"alpha": None, "__call__": lambda ip_, o, a, k: SNum(Fi(Q.num_value(a[0])), "tensor")})
+    ws = [z3.Real("w%d" % i) for i in range(3)]
+    for i, w in enumerate(ws):
+      s.vars["w%d" % i] = w
+    stored = []
+    ip.overrides["qkeras.utils::find_bn_fusing_layer_pair"] = lambda ip_, fv, a, k: ({}, set())
+    if kind == "rnn":
+      qs = [mkq(F[0]), mkq(F[1]), mkq(F[2]), mkq(F[3])]
+      lay = Obj(utils.env.vars["QSimpleRNN"], {
+          "name": "rnn0", "get_quantizers": Builtin("get_quantizers", lambda ip_: list(qs)),
+          "get_weights": Builtin("get_weights", lambda ip_: [SNum(w, "tensor") for w in ws]),
+          "set_weights": Builtin("set_weights", lambda ip_, v: stored.append(list(v)))})
+    elif kind == "folded":
+      qs = [mkq(F[0]), mkq(F[1])]
+      lay = Obj(utils.env.vars["QConv2DBatchnorm"], {
+          "name": "fold0", "get_quantizers": Builtin("get_quantizers", lambda ip_: list(qs)),
+          "get_folded_weights": Builtin("get_folded_weights", lambda ip_: [SNum(ws[0], "tensor"), SNum(ws[1], "tensor")]),
+          "get_weights": Builtin("get_weights", lambda ip_: [SNum(z3.Real("raw%d" % i), "tensor") for i in range(6)]),
+          "set_weights": Builtin("set_weights", lambda ip_, v: stored.append(list(v)))})
+    else:
+      ph, pw = z3.Int("ph"), z3.Int("pw")
+      s.vars["ph"], s.vars["pw"] = ph, pw
+      ip.assume(z3.And(ph >= 1, pw >= 1))
+      avg = Obj(ExtClass("quantized_bits"), {"alpha": None,
+                                             "__call__": lambda ip_, o, a, k: SNum(F[0](Q.num_value(a[0])), "tensor")})
+      lay = Obj(utils.env.vars["QAveragePooling2D"], {
+          "name": "pool0", "pool_size": (SNum(ph, "int"), SNum(pw, "int")), "average_quantizer_internal": avg,
+          "get_quantizers": Builtin("get_quantizers", lambda ip_: [avg, None]),
+          "get_weights": Builtin("get_weights", lambda ip_: []),
+          "set_weights": Builtin("set_weights", lambda ip_, v: stored.append(list(v)))})
+    model = Obj(ExtClass("Model"), {"layers": [lay]})
+    r = run_call(ip, ip.find(MS), [model])
+    s.claim("no_raise", r[0] == "return")
+    if r[0] != "return":
+      s.info["raised"] = str(r[1])
+      return s
+    saved = r[1]
+    ent = saved.get(lay.attrs["name"], {})
+    if kind == "rnn":
+      ok = len(stored) == 1 and len(stored[0]) == 3
+      s.claim("applied_once_shape", ok)
+      if ok:
+        s.claim("weight_quantizers_in_order", z3.And(*[Q.num_value(stored[0][i]) == F[i](ws[i]) for i in range(3)]))
+        s.claim("dictionary_matches", z3.And(*[Q.num_value(ent["weights"][i]) == F[i](ws[i]) for i in range(3)]))
+    elif kind == "folded":
+      s.claim("layer_weights_untouched", len(stored) == 0)
+      okw = len(ent.get("weights", [])) == 2
+      s.claim("folded_shape", okw)
+      if okw:
+        s.claim("folded_weights_quantized", z3.And(Q.num_value(ent["weights"][0]) == F[0](ws[0]),
+                                                   Q.num_value(ent["weights"][1]) == F[1](ws[1])))
+    else:
+      area = z3.ToReal(ph * pw)
+      ok = all(k in ent for k in ("q_mult_factor", "mult_factor", "pool_area"))
+      s.claim("pool_entries", ok)
+      if ok:
+        s.claim("pool_values", z3.And(Q.num_value(ent["pool_area"]) == area, Q.num_value(ent["mult_factor"]) * area == 1,
+                                      Q.num_value(ent["q_mult_factor"]) == F[0](1 / area)))
+    return s
+  return scenario
+
+
 def bounds(vars_):
   cs = []
   for k, v in vars_.items():
@@ -252,6 +322,9 @@ def cases(tier):
     for wb in (None, "q", "plain"):
       out.append(Case(PROP, MS, "%s_bias%s" % (kind, wb or "none"), export_scenario(kind, wb), bounds=bounds,
                       replay_kind="c14_export", assumptions=ASSUME, term_mode=True, lo=-20, hi=20))
+  for kind in ("rnn", "folded", "pool"):
+    out.append(Case(PROP, MS, "branch_%s" % kind, special_scenario(kind), bounds=bounds, replay_kind=None,
+                    assumptions=ASSUME, term_mode=True))
   for bk in ("q", "plain"):
     out.append(Case(PROP, MS, "fused_conv_bn_bias-%s" % bk, fuse_scenario(bk), bounds=bounds, replay_kind=None,
                     assumptions=ASSUME, term_mode=True))
